@@ -52,6 +52,8 @@ def plan(tier):
                      (S.T1(shared=S.VM1_CHAIN[:2], params={"test_timeout": 3600, "max_tries": 2, "max_concurrent_tries": 1}, D=(1.0, 40000.0)).variant("/timeout=3600s,mt=2,mct=1,D<=4000s"), 1)):
         scn_.max_steps, scn_.max_vtime = 400000, 100000.0
         p.append((scn_, kk, 1))
+    # every pair of run settings on a setup + leaf selection
+    p += S.settings_pairs(lambda **kw: S.T1(shared=S.VM1_CHAIN[:2], D=(1.0, 5.0, 15.0), **kw), tier)
     # configuration matrix: worker kinds x reuse scopes x slot bindings (same selection, default schedule and single deviations)
     p += S.config_matrix(lambda nets, **kw: S.T2(nets, D=DL, **kw), tier)
     p += [(scn.variant(",mt=2,mct=2"), k, w) for scn, k, w in S.config_matrix(lambda nets, **kw: S.T1(nets, D=DL, **kw), tier, k_quick=0, k_thorough=1,
